@@ -513,7 +513,7 @@ func (k Keeper) TriggerEsm(ctx sdk.Context, auctionData types.Auction, liquidati
 	}
 	//Update Collector Data for CMST
 	// Updating fees data in collector
-	err = k.collector.SetNetFeeCollectedData(ctx, auctionData.AppId, auctionData.CollateralAssetId, tokensToTransfer.Amount)
+	err = k.collector.SetNetFeeCollectedData(ctx, auctionData.AppId, auctionData.DebtAssetId, tokensToTransfer.Amount)
 	if err != nil {
 		return err
 	}
